@@ -22,6 +22,7 @@ type Env struct {
 	S, Pat string
 	I      int
 	A      []int
+	Big    []int // 40 elements, not sorted
 	M      map[string]int
 	O      *Obj
 	OS     []*Obj
@@ -51,11 +52,19 @@ func EnvP() *PtrEnv { return &PtrEnv{Name: "bob", Tags: []string{"x"}} }
 // PtrSources are run on the shared *PtrEnv.
 var PtrSources = []string{`[HasProfile(), Name, Nick]`, `Name + Tags[0]`, `Nick`}
 
+func big(seed int) []int {
+	out := make([]int, 40)
+	for i := range out {
+		out[i] = (i*17 + seed) % 41
+	}
+	return out
+}
+
 func EnvA() Env {
-	return Env{S: "aXb", Pat: "^a", I: 2, A: []int{1, 2, 3, 4}, M: map[string]int{"a": 1}, O: &Obj{N: 3, Name: "o"}, OS: []*Obj{{N: 1}, {N: 2}}}
+	return Env{Big: big(3), S: "aXb", Pat: "^a", I: 2, A: []int{1, 2, 3, 4}, M: map[string]int{"a": 1}, O: &Obj{N: 3, Name: "o"}, OS: []*Obj{{N: 1}, {N: 2}}}
 }
 func EnvB() Env {
-	return Env{S: "bYa", Pat: "a$", I: 3, A: []int{4, 0}, M: map[string]int{"a": 5}, O: &Obj{N: 7, Name: "p"}, OS: []*Obj{{N: 5}}}
+	return Env{Big: big(11), S: "bYa", Pat: "a$", I: 3, A: []int{4, 0}, M: map[string]int{"a": 5}, O: &Obj{N: 7, Name: "p"}, OS: []*Obj{{N: 5}}}
 }
 
 // Sources cover every kind of constant and run-time structure.
@@ -72,6 +81,7 @@ var Sources = []string{
 	`{a: I, b: [S, Pat]}.b[1] + S[1:2]`,                       // map/array literals, slicing
 	`Keep(I, S, O.N)`,                                         // fast call whose result aliases its argument list
 	`[len(5..1), I, len(3..2)]`,                               // folded empty ranges
+	`[I in Big, Big[0], Big[1:3], 7 in Big]`,                  // membership in a long unsorted list, and its order
 }
 
 // Options are shared by concurrent Compile calls.
